@@ -493,11 +493,47 @@ def execute(program, ctx, mode):
             prov_ver[id(p)] = v
 
     try:
+        def prime(k):
+            """a few single questions put right before an operation; the same questions come first right after it"""
+            rng = random.Random(k ^ 0x5bd1)
+            qs = []
+            for _ in range(3):
+                i = rng.randrange(nI)
+                live_obs = [o for o, ob in enumerate(obs) if ob is not None]
+                if live_obs and rng.random() < 0.6:
+                    o = live_obs[rng.randrange(len(live_obs))]
+                    ifs[i].providedBy(obs[o])
+                    qs.append(('ob', o, i))
+                elif classes:
+                    c = rng.randrange(len(classes))
+                    ifs[i].implementedBy(classes[c])
+                    qs.append(('cls', c, i))
+            return qs
+
+        def reask(qs):
+            for what, x, i in qs:
+                if what == 'ob':
+                    if x >= len(obs) or obs[x] is None:
+                        continue
+                    m = M.obs[x]
+                    lo = M.L(m['cls']) | M.clos(m['must'])
+                    hi = M.U(m['cls']) | M.clos(m['must'] + m['may'])
+                    got = bool(ifs[i].providedBy(obs[x]))
+                else:
+                    lo, hi = M.L(x), M.U(x)
+                    got = bool(ifs[i].implementedBy(classes[x]))
+                ctx.probe('primed-question')
+                if (i in lo and not got) or (i not in hi and got):
+                    ctx.violation('C01', 'primed', 'C01|I.%s|asked-right-before-and-right-after-the-operation|%s' % (
+                        'providedBy(instance)' if what == 'ob' else 'implementedBy(class)', 'false-negative' if i in lo else 'false-positive'),
+                        {'target': x, 'iface': i, 'lo': sorted(lo), 'hi': sorted(hi)})
+
         for step, op in enumerate(program['ops']):
             ctx.step = step
             ctx.nops += 1
             name = op['op']
             k = op.get('k', 0)
+            primed = prime(k) if name not in ('gc', 'perm', 'query') else []
             if name == 'gc':
                 n = gc.collect()
                 ctx.fault('gc')
@@ -719,6 +755,8 @@ def execute(program, ctx, mode):
                 raise ValueError('unknown op %r' % (name,))
             if spies:
                 check_spies()
+            if primed:
+                reask(primed)
             check(k)
         ctx.step = len(program['ops'])
         check(0, final=True)
